@@ -474,3 +474,170 @@ Proof.
     + destruct T1 as (_ & -> & _). now rewrite map_length.
     + apply Forall_app. split; [assumption | now apply wf_expand].
 Qed.
+
+(* ------------------------------------------------------------------------------------------ *)
+(** * Reachable states *)
+
+Lemma run_Inv_gen ops : forall s ms,
+  Inv s ms -> wf_ops ops -> Inv (fold_left step ops s) (ms ++ votes_of ops).
+Proof.
+  induction ops as [|p ops IH]; intros s ms I W; simpl.
+  - now rewrite app_nil_r.
+  - inversion W as [|? ? Wp Wr]; subst. unfold votes_of. simpl. rewrite app_assoc.
+    apply IH; [|assumption]. now apply step_Inv.
+Qed.
+
+Lemma reachable ops : wf_ops ops -> Inv (run ops) (votes_of ops).
+Proof. intro W. exact (run_Inv_gen ops init [] Inv_init W). Qed.
+
+Lemma run_typed ops : wf_ops ops -> ops <> [] -> infer_type (run ops) = Ok (dtype (run ops)).
+Proof.
+  intros W Hne. destruct (exists_last Hne) as [ops0 [p ->]].
+  unfold run. rewrite fold_left_app. simpl.
+  apply Forall_app in W. destruct W as [W0 Wp]. inversion Wp as [|? ? Wp1 _]; subst.
+  apply (step_Inv _ (votes_of ops0)); [|assumption]. now apply reachable.
+Qed.
+
+(* ------------------------------------------------------------------------------------------ *)
+(** * Views *)
+
+Lemma count_flat_repeat (n : order -> nat) l o :
+  count_occ order_eq_dec (flat_map (fun x => repeat x (n x)) l) o = count_occ order_eq_dec l o * n o.
+Proof.
+  induction l as [|a l IH]; [reflexivity|].
+  cbn [flat_map]. rewrite count_occ_app, IH.
+  destruct (order_eq_dec a o) as [E|E].
+  - subst a. rewrite count_occ_repeat_eq by reflexivity. rewrite count_occ_cons_eq by reflexivity. lia.
+  - rewrite count_occ_repeat_neq by congruence. rewrite count_occ_cons_neq by assumption. lia.
+Qed.
+
+Lemma full_profile_perm s ms : Inv s ms -> Permutation (full_profile s) ms.
+Proof.
+  intros [T _ _ _ _ _ _]. apply (Permutation_count_occ order_eq_dec). intro o.
+  unfold full_profile. rewrite (count_flat_repeat (fun x => N.to_nat (mget (mult s) x))).
+  rewrite (tbl_mget _ _ _ o T). unfold cnt. rewrite Nat2N.id.
+  destruct (in_dec order_eq_dec o (ords s)) as [Hin|Hnin].
+  - assert (Hn : NoDup (ords s)) by (destruct T as (Hn & -> & _); exact Hn).
+    rewrite (proj1 (NoDup_count_occ' order_eq_dec (ords s)) Hn o Hin). lia.
+  - assert (Hm : ~ In o ms) by (rewrite <- (tbl_in _ _ _ o T); exact Hnin).
+    apply (count_occ_not_In order_eq_dec) in Hm. rewrite Hm. lia.
+Qed.
+
+Lemma vote_map_keys m : NoDup (map fst m) -> map (fun o => (o, mget m o)) (map fst m) = m.
+Proof.
+  induction m as [|[o k] m IH]; simpl; intro Hn; [reflexivity|].
+  inversion Hn as [|? ? Hnin Hn']; subst. f_equal.
+  - unfold mget. simpl. now rewrite order_eqb_refl.
+  - transitivity (map (fun o' => (o', mget m o')) (map fst m)); [|now apply IH].
+    apply map_ext_in. intros o' Ho'. f_equal. unfold mget. simpl.
+    rewrite order_eqb_neq; [reflexivity|]. intros ->. contradiction.
+Qed.
+
+Lemma vote_map_eq s ms : Inv s ms -> vote_map s = mult s.
+Proof.
+  intros [T _ _ _ _ _ _]. destruct T as (Hn & E & _). unfold vote_map. rewrite E.
+  now apply vote_map_keys.
+Qed.
+
+Lemma flatten_strict_eq s ms :
+  Inv s ms -> flatten_strict s = map (fun p => (map (fun c => hd 0%N c) (fst p), snd p)) (mult s).
+Proof.
+  intro I. rewrite <- (vote_map_eq s ms I) at 1. unfold flatten_strict, vote_map.
+  now rewrite map_map.
+Qed.
+
+Lemma hd_strictify l : map (fun c => hd 0%N c) (strictify l) = l.
+Proof. induction l as [|a l IH]; simpl; [reflexivity | now rewrite IH]. Qed.
+
+(* ------------------------------------------------------------------------------------------ *)
+(** * Regrouping *)
+
+Lemma in_cc (ms : list order) (a : N) :
+  In a (concat (concat ms)) <-> exists o, In o ms /\ In a (concat o).
+Proof.
+  rewrite in_concat. split.
+  - intros [c [Hc Ha]]. apply in_concat in Hc. destruct Hc as [o [Ho Hco]].
+    exists o. split; [assumption|]. apply in_concat. now exists c.
+  - intros [o [Ho Ha]]. apply in_concat in Ha. destruct Ha as [c [Hc Hac]].
+    exists c. split; [|assumption]. apply in_concat. now exists o.
+Qed.
+
+Lemma in_cc_perm (ms ms' : list order) (a : N) :
+  Permutation ms ms' -> In a (concat (concat ms)) -> In a (concat (concat ms')).
+Proof.
+  intros P H. apply in_cc in H. destruct H as [o [Ho Ha]]. apply in_cc. exists o.
+  split; [now apply (Permutation_in _ P) | assumption].
+Qed.
+
+Lemma alts_in al ms a t :
+  alts_ok al ms -> (In (a, t) al <-> In a (concat (concat ms)) /\ t = alt_name a).
+Proof.
+  intros (A & B & C). split.
+  - intro H. split; [|now apply C]. apply B. apply in_map_iff. now exists (a, t).
+  - intros [H ->]. apply B in H. apply in_map_iff in H. destruct H as [[a' t'] [E H]].
+    simpl in E. subst a'. now rewrite <- (C _ _ H).
+Qed.
+
+Lemma forallb_set_ext {T} (f : T -> bool) l l' :
+  (forall x, In x l <-> In x l') -> forallb f l = forallb f l'.
+Proof.
+  intro H. destruct (forallb f l) eqn:E1; destruct (forallb f l') eqn:E2; try reflexivity.
+  - rewrite forallb_forall in E1.
+    assert (X : forallb f l' = true) by (apply forallb_forall; intros x Hx; apply E1, H, Hx).
+    congruence.
+  - rewrite forallb_forall in E2.
+    assert (X : forallb f l = true) by (apply forallb_forall; intros x Hx; apply E2, H, Hx).
+    congruence.
+Qed.
+
+Lemma dtype_spec s ms :
+  Inv s ms -> infer_type s = Ok (dtype s) ->
+  dtype s = type_code (forallb strict_o (ords s)) (forallb (complete_o (n_alt s)) (ords s)).
+Proof.
+  intros [T _ _ _ _ W _] H. rewrite (infer_type_spec s (ords_nonempty _ _ _ T W)) in H. congruence.
+Qed.
+
+Record same_table (s s' : state) : Prop := mkSame {
+  st_mult  : forall o, lookup (mult s) o = lookup (mult s') o;
+  st_nvot  : n_vot s = n_vot s';
+  st_nuniq : n_uniq s = n_uniq s';
+  st_nalt  : n_alt s = n_alt s';
+  st_alts  : forall p, In p (alts s) <-> In p (alts s');
+  st_ords  : forall o, In o (ords s) <-> In o (ords s');
+  st_nodup : NoDup (ords s) /\ NoDup (ords s');
+  st_type  : infer_type s = Ok (dtype s) -> infer_type s' = Ok (dtype s') -> dtype s = dtype s'
+}.
+
+Lemma Inv_nodup_ords s ms : Inv s ms -> NoDup (ords s).
+Proof. intros [T _ _ _ _ _ _]. destruct T as (Hn & -> & _). exact Hn. Qed.
+
+Lemma Inv_nodup_alts s ms : Inv s ms -> NoDup (alts s).
+Proof. intros [_ _ _ A _ _ _]. destruct A as (Hn & _). now apply NoDup_map_inv in Hn. Qed.
+
+Lemma Inv_regroup s s' ms ms' :
+  Inv s ms -> Inv s' ms' -> Permutation ms ms' -> same_table s s'.
+Proof.
+  intros I I' P.
+  assert (Hords : forall o, In o (ords s) <-> In o (ords s')).
+  { intro o. rewrite (tbl_in _ _ _ o (inv_tbl _ _ I)), (tbl_in _ _ _ o (inv_tbl _ _ I')).
+    split; apply Permutation_in; [assumption | now apply Permutation_sym]. }
+  assert (Halts : forall p, In p (alts s) <-> In p (alts s')).
+  { intros [a t]. rewrite (alts_in _ _ a t (inv_alts _ _ I)), (alts_in _ _ a t (inv_alts _ _ I')).
+    split; intros [H1 H2]; (split; [|assumption]);
+      [apply (in_cc_perm ms ms') | apply (in_cc_perm ms' ms)]; auto using Permutation_sym. }
+  assert (Hnalt : n_alt s = n_alt s').
+  { rewrite (inv_nalt _ _ I), (inv_nalt _ _ I'). f_equal. apply Permutation_length.
+    apply NoDup_Permutation; eauto using Inv_nodup_alts. }
+  constructor.
+  - intro o. destruct (inv_tbl _ _ I) as (_ & _ & L). destruct (inv_tbl _ _ I') as (_ & _ & L').
+    rewrite L, L'. unfold cnt_opt. now rewrite (cnt_perm ms ms' o P).
+  - rewrite (inv_nvot _ _ I), (inv_nvot _ _ I'). f_equal. now apply Permutation_length.
+  - rewrite (inv_nuniq _ _ I), (inv_nuniq _ _ I'). f_equal. apply Permutation_length.
+    apply NoDup_Permutation; eauto using Inv_nodup_ords.
+  - exact Hnalt.
+  - exact Halts.
+  - exact Hords.
+  - split; eauto using Inv_nodup_ords.
+  - intros H H'. rewrite (dtype_spec s ms I H), (dtype_spec s' ms' I' H'). rewrite Hnalt.
+    f_equal; now apply forallb_set_ext.
+Qed.
